@@ -137,7 +137,10 @@ def generate():
     for c in sorted(streamer.parse_lookup):
         parse_f, stream_f = streamer.parse_lookup[c], streamer.stream_lookup[c]
         if c in STREAMER_FUNCTIONS and STREAMER_FUNCTIONS[c] == (parse_f, stream_f):
-            rows.append("('%s', .prim (%s))" % (c, classify(parse_f, stream_f)))
+            try:
+                rows.append("('%s', .prim (%s))" % (c, classify(parse_f, stream_f)))
+            except (SystemExit, Exception):  # noqa: BLE001  (a probe no longer matches: no law for this letter)
+                rows.append("('%s', .unknown)" % c)
         else:
             rows.append("('%s', %s)" % (c, classify_extra(c, parse_f, stream_f, net)))
     out.append("/-- every letter of `standard_streamer(standard_parsing_functions(Block, Tx))`, each pair classified by probing -/")
